@@ -156,6 +156,8 @@ def h_authorization(auth_kind: int, mask: int, nh: int, k0: int, l0: int, k1: in
     pre: 0 <= k0 <= 5 and 0 <= k1 <= 5 and 0 <= k2 <= 5 and l0 >= 0 and l1 >= 0 and l2 >= 0
     pre: B.get("mask") is None or mask == B["mask"]
     pre: B.get("auth") is None or auth_kind == B["auth"]
+    pre: B.get("nh") is None or nh == B["nh"]
+    pre: B.get("k0") is None or (k0 == B["k0"] if B["k0"] < 3 else k0 >= 3)
     post: _ == True
     """
     auth = [None, GOOD_AUTH, GOOD_AUTH + "x", GOOD_AUTH[:-1], GOOD_AUTH.lower(), "Tahoe-LAFS ", "\udc80"][_pin(auth_kind, 0, 6)]
